@@ -91,6 +91,7 @@ def harness(binary, args, stdin=None, timeout=3600, check=True):
     return p
 
 
+UESC_RE = re.compile(r"\{u([0-9a-f]{4})\}")
 CASE_RE = re.compile(r'^<<"([A-Z]+)", "(.*)">>$')
 
 
@@ -143,7 +144,10 @@ def tlc(module, cfg=None, workers=8, timeout=1800, simulate=None, depth=None, se
         m = CASE_RE.match(line)
         if m and m.group(1) in want_tags:
             try:
-                obj = json.loads(json.loads('"' + m.group(2) + '"'))
+                inner = json.loads('"' + m.group(2) + '"')
+                if "{u" in inner:
+                    inner = UESC_RE.sub(lambda x: json.dumps(chr(int(x.group(1), 16)))[1:-1], inner)
+                obj = json.loads(inner)
             except Exception as ex:  # pragma: no cover
                 raise ToolError("cannot decode TLC case line: %s (%s)" % (line[:200], ex))
             res.cases.setdefault(m.group(1), []).append(obj)
